@@ -157,6 +157,8 @@ def _post_import(fullname: str, module):
         module.DTYPE = object  # A1: floats are reals
     elif fullname == "classy_blocks.util.functions":
         models.install_function_models(module)
+    elif fullname == "classy_blocks.grading.relations":
+        models.install_relation_models(module)
 
 
 _MODE = [None]
@@ -192,7 +194,8 @@ def extraction_report() -> dict:
         "shimmed_builtins": sorted(BUILTIN_SHIMS),
         "shimmed_library_calls": ["math.isclose", "np.isnan", "np.clip", "np.arctan2", "np.cross", "np.linspace", "np.linalg.norm", "np.<unary ufunc> (sqrt sin cos tan arccos arcsin arctan log log10 exp)"],
         "rebindings": ["util.constants.DTYPE := object", "util.functions.norm := sqrt-of-squares model (symbolic args only)",
-                       "util.functions.rotation_matrix := Rodrigues model (symbolic args only)"],
+                       "util.functions.rotation_matrix := Rodrigues model (symbolic args only)",
+                       "grading.relations._validate_count := comparison on the proxy (symbolic count only)"],
     }
 
 
